@@ -467,7 +467,7 @@ def parse_check(src, off, txt, first):
 
 def preceding_check(src, t, at):
     """The check of the left operand when it is a statement of its own directly before the production at offset `at`:
-    returns the PCheck text, or None when the previous statement is not such a check. Anything between the two statements
+    returns (PCheck text, offset of that statement's call), or None when the previous statement is not such a check. Anything between the two statements
     other than `return` / `result =` means the check does not guard this production."""
     s = t.rfind(";", 0, at)
     if s < 0 or not re.fullmatch(r"\s*(return|result\s*=)\s*", t[s + 1:at]):
@@ -481,13 +481,14 @@ def preceding_check(src, t, at):
     args = split_args(src, s, call[call.index("(") + 1:-1])
     if len(args) != 5 or args[4] != "false":
         src.fail(s, "the left-operand check before a production must keep `result` on failure (5th argument false): %r" % call)
-    return parse_check(src, s, call, True)
+    return parse_check(src, s, call, True), b + 1 + mm.start(3)
 
 
 def extract_checks():
     src = Src("blocc/parse_expression.cpp")
     t = src.text
     found = {}
+    consumed = set()      # offsets of the stand-alone left-operand checks that a production has taken
     for m in re.finditer(r"new\s+Op(\w+)Expression\s*\(", t):
         o = m.end() - 1
         depth, i = 0, o
@@ -511,16 +512,35 @@ def extract_checks():
                 src.fail(o, "binary operator %s built with %d operands" % (name, len(args)))
             chk = (parse_check(src, o, args[0], True), parse_check(src, o, args[1], False))
             if chk[0] == ".nocheck":
-                # since /repo 443d77e the left operand is checked by a statement of its own, placed DIRECTLY before the one that
+                # since /repo 565b1e8 the left operand is checked by a statement of its own, placed DIRECTLY before the one that
                 # builds the node: `assertType[Uniform](result, T, p, ctx, false);` then `return|result = new OpX(result, …);`
                 pre = preceding_check(src, t, m.start())
                 if pre is not None:
-                    chk = (pre, chk[1])
+                    chk = (pre[0], chk[1])
+                    consumed.add(pre[1])
         else:
             src.fail(o, "production for an operator without a model entry: Op%sExpression" % m.group(1))
         if name in found and found[name][0] != chk:
             src.fail(o, "two productions of operator %s check their operands differently (%s at line %d)" % (name, found[name][0], found[name][1]))
         found.setdefault(name, (chk, src.line(o)))
+    # C02R4: every stand-alone `assertType[Uniform](result, …);` STATEMENT of the file must have been taken by the production that
+    # directly follows it: a check that drifted away from its production (another statement in between, a production that no
+    # longer has the bare `result` as first operand, a check in front of something that is not a production) is refused, not dropped
+    for ms in re.finditer(r"(?:[;{}]|(?:case\s+[^:;{}]+|default)\s*:)\s*((?:assertType|assertTypeUniform)\(\s*result\s*,)", t):
+        # a statement, not an argument: what follows the matching parenthesis is `;`
+        i, depth = ms.end(1) - 1 - len(ms.group(1)) + ms.group(1).index("("), 0
+        j = i
+        while True:
+            if t[j] == "(":
+                depth += 1
+            elif t[j] == ")":
+                depth -= 1
+                if depth == 0:
+                    break
+            j += 1
+        if re.match(r"\s*;", t[j + 1:]) and ms.start(1) not in consumed:
+            src.fail(ms.start(1), "the stand-alone check `%s` is not directly followed by the operator production it guards "
+                     "(`return|result = new OpXXXExpression(result, …)`)" % re.sub(r"\s+", " ", t[ms.start(1):j + 1]))
     for name in BINARY + UNARY:
         if name not in found:
             raise ExtractError("%s: no production builds Op%sExpression" % (src.rel, name.upper()))
